@@ -338,6 +338,11 @@ class VBytes(V):
                         if k <= 0:
                             continue
                         s = View(s.base, s.off, k, s.origin)
+                if out and isinstance(out[-1], View) and out[-1].base is s.base and out[-1].origin is None and s.origin is None:
+                    p = out[-1]
+                    if as_const(isub(iadd(p.off, p.n), s.off)) == 0:
+                        out[-1] = View(p.base, p.off, iadd(p.n, s.n))      # contiguous views of the same array
+                        continue
                 out.append(s)
         self.segs = tuple(out)
         self.kind = kind
